@@ -65,7 +65,7 @@ def lat_changed(before, after):
 class World:
     """the shared objects of one call sequence"""
 
-    def __init__(self, rng, base, readonly=False):
+    def __init__(self, rng, base, readonly=False, int_dtype=None):
         import matplotlib
         matplotlib.use("Agg")
         from matplotlib import pyplot as plt
@@ -95,7 +95,14 @@ class World:
         self.k = np.array([0.3, 0.4])
         self.cross = np.array([0.5, 0.5])
         self.scalar = np.arange(nV) * 1.0
-        self.arrays = dict(col=self.col, u=self.u, J=self.J, tgt=self.tgt, pts=self.pts, perm=self.perm, idx=self.idx, tree=self.tree, P=self.P, H=self.H,
+        self.sub = np.sort(rng.choice(nE, size=max(1, min(5, nE - 1)), replace=False))
+        self.sublabels = (np.arange(len(self.sub)) % 3) + 0
+        self.psub = np.arange(max(1, F - 1))
+        self.plabels = (np.arange(len(self.psub)) % 2) + 0
+        if int_dtype is not None:           # the same integer data in another dtype: views/copies of numpy depend on it
+            for k in ("col", "u", "tgt", "perm", "idx", "tree", "sublabels", "plabels"):
+                setattr(self, k, np.asarray(getattr(self, k)).astype(int_dtype))
+        self.arrays = dict(sub=self.sub, sublabels=self.sublabels, psub=self.psub, plabels=self.plabels, col=self.col, u=self.u, J=self.J, tgt=self.tgt, pts=self.pts, perm=self.perm, idx=self.idx, tree=self.tree, P=self.P, H=self.H,
                            k=self.k, cross=self.cross, scalar=self.scalar)
         if readonly:
             for a in self.arrays.values():
@@ -168,6 +175,12 @@ class World:
             "plotting.plot_edges": (lambda: pl.plot_edges(l, labels=w.col, ax=fig_ax(), directions=w.u.astype(int)), False),
             "plotting.plot_edges(subset)": (lambda: pl.plot_edges(l, labels=w.col, ax=fig_ax(), subset=w.idx), False),
             "plotting.plot_plaquettes": (lambda: pl.plot_plaquettes(l, labels=ff.fluxes_to_labels(w.tgt), ax=fig_ax()), False),
+            "plotting.plot_edges(subset-sized labels, color)": (lambda: pl.plot_edges(l, labels=w.sublabels, subset=w.sub, ax=fig_ax(), color="k"), False),
+            "plotting.plot_edges(full labels, color)": (lambda: pl.plot_edges(l, labels=w.col, ax=fig_ax(), color="k"), False),
+            "plotting.plot_plaquettes(subset-sized labels, color)": (lambda: pl.plot_plaquettes(l, labels=w.plabels, subset=w.psub, ax=fig_ax(), color="k"), False),
+            "plotting.plot_plaquettes(labels, scheme)": (lambda: pl.plot_plaquettes(l, labels=w.plabels, subset=w.psub, ax=fig_ax(), color_scheme=np.array(["r", "g", "b"])), False),
+            "plotting.plot_vertices(subset-sized labels)": (lambda: pl.plot_vertices(l, labels=w.sublabels[: len(w.idx)], subset=w.idx, ax=fig_ax()), False),
+            "plotting.plot_dual(color)": (lambda: pl.plot_dual(l, ax=fig_ax(), color="k"), False),
             "plotting.plot_vertices": (lambda: pl.plot_vertices(l, ax=fig_ax(), labels=np.asarray(w.perm) % 3), False),
             "plotting.plot_dual": (lambda: pl.plot_dual(l, ax=fig_ax()), False),
             "plotting.plot_lattice": (lambda: pl.plot_lattice(l, ax=fig_ax(), edge_labels=w.col, edge_arrows=True, bond_signs=w.u.astype(int)), False),
@@ -218,13 +231,13 @@ def run(ctx):
             fresh[cname] = run_call(f)
             plt.close("all")
         for s in range(nseq):
-            for readonly in (False, True):
-                w = World(np.random.default_rng(wseed), base, readonly=readonly)
+            for readonly, int_dtype in ((False, None), (True, None), (False, np.int64), (False, np.int8)):
+                w = World(np.random.default_rng(wseed), base, readonly=readonly, int_dtype=int_dtype)
                 calls = w.calls()
                 names = list(calls)
                 length = int(rng.integers(1, 31))
                 seq = [names[i] for i in rng.integers(0, len(names), size=length)]
-                if s == 0 and not readonly:
+                if s == 0:
                     seq = names[:]                    # every public call at least once per base
                     rng.shuffle(seq)
                 for step, cname in enumerate(seq):
@@ -235,7 +248,7 @@ def run(ctx):
                     plt.close("all")
                     after = {k: fp(v) for k, v in shared.items()}
                     names_seen.add(cname)
-                    repl = dict(base=bname, lattice=zoo.lat_to_json(base), world_seed=wseed, sequence=seq[: step + 1], readonly=readonly)
+                    repl = dict(base=bname, lattice=zoo.lat_to_json(base), world_seed=wseed, sequence=seq[: step + 1], readonly=readonly, int_dtype=None if int_dtype is None else np.dtype(int_dtype).name)
                     if isinstance(res, tuple) and res and res[0] == "EXC" and "read-only" in (res[2] if len(res) > 2 else ""):
                         ctx.impl_violation(f"{bname}: {cname} writes into one of its (read-only) arguments", repl); break
                     bad = []
@@ -248,9 +261,9 @@ def run(ctx):
                             bad.append(f"array '{k}'")
                     if bad:
                         ctx.impl_violation(f"{bname}: {cname} modified its arguments: {', '.join(bad)} (step {step + 1} of the sequence)", repl); break
-                    if cmp_result and not readonly and res != fresh[cname] and not (isinstance(res, tuple) and res[:1] == ("EXC",) and fresh[cname][:1] == ("EXC",)):
+                    if cmp_result and not readonly and int_dtype is None and res != fresh[cname] and not (isinstance(res, tuple) and res[:1] == ("EXC",) and fresh[cname][:1] == ("EXC",)):
                         ctx.impl_violation(f"{bname}: result of {cname} after {step} earlier calls on the same objects differs from a fresh evaluation", repl); break
-                    ctx.case((bname, s, readonly, step, cname), nontrivial=True,
+                    ctx.case((bname, s, readonly, str(int_dtype), step, cname), nontrivial=True,
                              sample=dict(base=bname, call=cname, step=step, readonly=readonly) if step == 3 else None)
                 ctx.count("sequences")
                 ctx.count("sequence_length_total", len(seq))
@@ -265,7 +278,7 @@ def replay(ctx, path):
     lat = j["lattice"]
     base = Lattice(np.array(lat["pos"], dtype=float) / lat["scale"], np.array(lat["edges"], dtype=int).reshape(-1, 2),
                    np.array(lat["cross"], dtype=int).reshape(-1, 2))
-    w = World(np.random.default_rng(j["world_seed"]), base, readonly=j.get("readonly", False))
+    w = World(np.random.default_rng(j["world_seed"]), base, readonly=j.get("readonly", False), int_dtype=j.get("int_dtype"))
     calls = w.calls()
     bad = False
     for cname in j["sequence"]:
